@@ -144,6 +144,10 @@ impl TcpStream {
     }
     pub fn shutdown(&self, how: Shutdown) -> io::Result<()> {
         let mut w = vec![];
+        if let Some(r) = try_rt() {
+            r.touch(lock(&self.tx).id);
+            r.touch(lock(&self.rx).id);
+        }
         if matches!(how, Shutdown::Write | Shutdown::Both) {
             let mut p = lock(&self.tx);
             p.closed_w = true;
